@@ -39,7 +39,7 @@ async fn publish(config: &warg_client::Config, name: &str, version: &str, bytes:
     entries.push(PublishEntry::Release { version: version.parse().unwrap(), content: digest });
     let name: PackageName = name.parse()?;
     let id = client.publish_with_info(&PrivateKey::decode(SIGNING_KEY.to_string()).unwrap(), PublishInfo { name: name.clone(), head: None, entries }).await?;
-    client.wait_for_publish(&name, &id, Duration::from_secs(60)).await?;
+    client.wait_for_publish(&name, &id, Duration::from_millis(200)).await?;   // third argument: the polling interval
     Ok(())
 }
 
@@ -77,6 +77,7 @@ fn main() {
         std::fs::create_dir_all(&dir).unwrap();
         let res: Result<(), String> = rt.block_on(async {
             let (task, shutdown, config) = serve(&dir).await.map_err(|e| format!("INFRA: cannot start the local registry: {e:#}"))?;
+
             let mut seen = std::collections::HashSet::new();
             for (n, v, b) in &releases { publish(&config, n, v, b.clone(), seen.insert(*n)).await.map_err(|e| format!("INFRA: cannot publish {n}@{v}: {e:#}"))?; }
             // every ordered list of distinct pool entries up to maxk
